@@ -7,6 +7,7 @@ HERE = os.path.dirname(os.path.dirname(os.path.abspath(__file__)))
 REPO = os.environ.get("VERIF_REPO", "/repo")
 BIN = os.path.join(HERE, "bin", "cctpcheck")
 
+PROP = "all"
 def one(d):
     name = os.path.basename(d)
     tmp = tempfile.mkdtemp(prefix="cctpseed-")
@@ -16,7 +17,7 @@ def one(d):
         p = subprocess.run(["git", "apply", "--whitespace=nowarn", os.path.join(d, "patch.diff")], cwd=tree, capture_output=True, text=True)
         if p.returncode != 0:
             return name, None, "patch does not apply: " + p.stderr[:200]
-        q = subprocess.run([BIN, "-repo", tree, "-prop", "all", "-q", "-evidence", tmp + "/ev", "-replaydir", tmp + "/rp", "-known", os.path.join(HERE, "known_findings.json")],
+        q = subprocess.run([BIN, "-repo", tree, "-prop", PROP, "-q", "-evidence", tmp + "/ev", "-replaydir", tmp + "/rp", "-known", os.path.join(HERE, "known_findings.json")],
                            capture_output=True, text=True, timeout=900)
         out = q.stdout + q.stderr
         fired = sorted(set(re.findall(r"VIOLATION property=(C\d+)", out)))
@@ -26,10 +27,16 @@ def one(d):
         shutil.rmtree(tmp, ignore_errors=True)
 
 def main():
-    update = "--update" in sys.argv
+    global PROP
+    if "--prop" in sys.argv:
+        PROP = sys.argv[sys.argv.index("--prop") + 1]
+    update = "--update" in sys.argv and PROP == "all"
     jobs = 6
     if "-j" in sys.argv: jobs = int(sys.argv[sys.argv.index("-j") + 1])
     dirs = sorted(d for d in glob.glob(os.path.join(HERE, "seeded", "*")) if os.path.exists(os.path.join(d, "patch.diff")))
+    if PROP != "all":
+        # only the changes this property's check is recorded to catch
+        dirs = [d for d in dirs if PROP in json.load(open(os.path.join(d, "meta.json"))).get("checks_fired", []) or json.load(open(os.path.join(d, "meta.json"))).get("property") == PROP]
     with ThreadPoolExecutor(max_workers=jobs) as ex:
         res = list(ex.map(one, dirs))
     bad = 0
@@ -41,7 +48,8 @@ def main():
         if fired is None or not fired:
             bad += 1
         print("%-22s breaks %-4s fired=%s own=%s" % (name, prop, fired, own))
-        summary[name] = {"property": prop, "fired": fired, "own_property_fired": own}
+        summary[name] = {"property": prop, "fired": fired, "own_property_fired": own, "expected": PROP == "all" or PROP in meta.get("checks_fired", []) or prop == PROP,
+                         "fired_this_prop": fired is not None and (PROP in fired if PROP != "all" else bool(fired))}
         if update and fired is not None:
             meta["checks_fired"] = fired
             meta["own_property_check_fired"] = own
